@@ -24,6 +24,7 @@ var (
 func checkC17(c *chk.Ctx) {
 	h := newH(c)
 	c.Decided = []string{
+		"R17i the reader scans from the resume offset to the END of the notification key space: the upper bound does not depend on the start offset (stored batches have holes: trimmed prefixes, periods with notifications disabled)",
 		"R17a the notification batch of a request is written into the request's own write batch before the commit and carries the request's offset (shared with C07)",
 		"R17b every insertion into a notification batch is guarded by the internal-key-prefix test of the inserted key",
 		"R17c readers are woken (UpdatedCommitOffset) only after the batch was committed",
@@ -46,6 +47,7 @@ func checkC17(c *chk.Ctx) {
 	ruleR17f(h)
 	ruleR17g(h)
 	ruleR17h(h)
+	ruleR17i(h)
 }
 
 func ruleR17aOffset(h *H) {
@@ -791,4 +793,41 @@ func resumeReturnsOK(fn *ssa.Function, rets []ssa.Value) (bool, string) {
 		}
 	}
 	return true, ""
+}
+
+// ruleR17i: stored notification batches are not contiguous (the trimmer removes a prefix,
+// entries without user-visible changes or applied while notifications were disabled leave
+// no batch). A reader that resumes behind such a hole must still find the next batch, so
+// the scan runs to the end of the notification key space; a window relative to the start
+// offset finds nothing for ever once the hole is wider than the window.
+func ruleR17i(h *H) {
+	const rule = "R17i"
+	h.Rule(rule, "K4", "in the notification reader the upper bound of the KV scan does not depend on the start offset", 1)
+	n := 0
+	for _, fn := range h.P.Funcs {
+		if ir.RelPkg(ir.PkgPathOf(fn)) != "server/kv" || fn.Signature.Recv() == nil || fn.Name() != "ReadNextNotifications" {
+			continue
+		}
+		var start *ssa.Parameter
+		for _, p := range fn.Params {
+			if p.Type().String() == "int64" {
+				start = p
+			}
+		}
+		if start == nil {
+			continue
+		}
+		h.Fn(ir.FuncName(fn))
+		for _, g := range helperFuncs(fn) {
+			for _, c := range h.P.CallsIn(g, ir.Callee{Pkg: "server/kv", Recv: "KV", Name: "RangeScan"}, ir.Callee{Pkg: "server/kv", Recv: "KV", Name: "KeyRangeScan"}) {
+				n++
+				hi := argOf(c.Common(), 1)
+				dep := ir.DependsOn(hi, func(v ssa.Value) bool { return v == ssa.Value(start) })
+				h.Verdict(!dep, rule, "upper bound of the notification scan in "+ir.FuncName(fn), h.pos(c), "independent of the start offset", "the scan ends at a key computed from the start offset: a subscriber that resumes behind a hole wider than that window (trimmed prefix, period with notifications disabled) finds nothing, never advances, and never receives the batches that are stored after the hole")
+			}
+		}
+	}
+	if n == 0 {
+		h.Anchor(rule, "the KV scan of the notification reader (ReadNextNotifications in server/kv)")
+	}
 }
